@@ -344,7 +344,7 @@ def c09_case(args):
     spec = SPECS[plugin](d)
     feats = {"desc": f"{skname}/{plugin}/perm{variant}", "skeleton": skname, "plugin": plugin, "perm": variant}
     cov = Coverage()
-    eng = Engine(timeout_ms=30000 if tier == "quick" else 300000, max_paths=50000)
+    eng = Engine(timeout_ms=240000 if tier == "quick" else 600000, max_paths=50000)
     mod = importlib.import_module(PLUGINS[plugin]) if PLUGINS[plugin] else None
 
     def body():
